@@ -372,6 +372,9 @@ func (g *rgRunner) add(ids []int) {
 		g.o.Count("rg.nil_batches.add")
 	}
 	_, pan := safely(func() error { err = g.r.AddPlayers(names); return nil })
+	for i := range names { // the caller re-uses its buffer: the regulator must not have kept the slice it was handed
+		names[i] = "reused-buffer"
+	}
 	line := fmt.Sprintf("rg add %s %s", batchStr(ids, isNil), joinList(g.choices, ","))
 	if pan {
 		g.fail(line)
@@ -447,6 +450,9 @@ func (g *rgRunner) release(t int, ids []int) {
 		g.o.Count("rg.nil_batches.release")
 	}
 	_, pan := safely(func() error { err = g.r.ReleasePlayers(itoa(int64(t)), names); return nil })
+	for i := range names { // the caller re-uses its buffer: the regulator must not have kept the slice it was handed
+		names[i] = "reused-buffer"
+	}
 	line := fmt.Sprintf("rg release %d %s %s", t, batchStr(ids, isNil), joinList(g.choices, ","))
 	if pan {
 		g.fail(line)
